@@ -4,7 +4,7 @@
    compiled to the Iter/Continue/Break/IterStop/Return skeleton and interpreted; flag false = the code as it is,
    true = an interpreter that stops the active iterators when an error leaves run_block). *)
 From Coq Require Import ZArith List Bool Arith.
-From SV Require Import Lock.Model Lock.Bc Lock.Proofs.
+From SV Require Import Lock.Model Lock.Bc Lock.Proofs Lock.Nested.
 Import ListNotations.
 Open Scope nat_scope.
 
@@ -72,6 +72,52 @@ Theorem C12_builtin_consumers_balanced : forall fx fuel b early a cb st r st',
   forall x, iter_count st' x = iter_count st x.
 Proof. exact builtin_consumers_balanced. Qed.
 
+(* ---- the lock is a COUNTER: overlapping iterations of the same container ---- *)
+(* after n iterations of a have started and m of them have stopped, the count is the entry count + n - m: a stop releases
+   its own unit and nothing else *)
+Theorem C12_nested_count : forall st a c n m, st a = Some c ->
+  iter_count (unlock_n m (lock_n n st a) a) a = c_iters c + n - m.
+Proof. exact nested_count. Qed.
+
+(* ... so the container stays locked until the LAST of them ends: with m < n every well-formed request is refused *)
+Theorem C12_nested_keeps_locked : forall st a c n m o, st a = Some c -> m < n ->
+  pre_ok o (unlock_n m (lock_n n st a) a) a = true ->
+  mutate o (unlock_n m (lock_n n st a) a) a = (Err MutateWhileIter, unlock_n m (lock_n n st a) a).
+Proof. exact nested_keeps_locked. Qed.
+
+(* any interleaving of starts, stops and attempts on one container (a stop needs an iteration in progress; every attempt
+   is made while at least one is in progress): every attempt is refused and no content changes *)
+Theorem C12_overlapping_iterations_blocked : forall evs st a live, live <= iter_count st a -> guarded live evs ->
+  Forall refused (fst (replay unlock a evs st)) /\ forall b, content (snd (replay unlock a evs st)) b = content st b.
+Proof. exact trace_blocked. Qed.
+
+(* a native consumer (StarlarkIterator: start, one callback per element, stop after iter_next = None): the callback is
+   refused at EVERY element - first, middle, last, the only one - and afterwards the count is what it was *)
+Theorem C12_consumer_callback_blocked : forall o tries st a,
+  Forall refused (fst (replay unlock a (consume o tries) st)) /\
+  forall b, content (snd (replay unlock a (consume o tries) st)) b = content st b.
+Proof. exact consumer_callback_blocked. Qed.
+
+Theorem C12_consumer_releases : forall o tries st a c, st a = Some c ->
+  iter_count (snd (replay unlock a (consume o tries) st)) a = c_iters c.
+Proof. exact consumer_releases. Qed.
+
+(* The two weakenings a counter excludes, refuted like the error exit above (F4):
+   iter_stop that RESETS the count - outer iteration, inner iteration come and gone, attempt: accepted, content changed *)
+Theorem C12_reset_on_stop_refuted : exists st a o, guarded 0 (overlap_trace o) /\
+  fst (replay unlock a (overlap_trace o) st) = [Err MutateWhileIter] /\
+  fst (replay unlock_reset a (overlap_trace o) st) = [Ok] /\
+  content (snd (replay unlock_reset a (overlap_trace o) st)) a <> content st a.
+Proof. exact reset_variant_refuted. Qed.
+
+(* a consumer that stops as soon as the last element is fetched, i.e. before its callback: the attempt made while the last
+   element is handled is accepted *)
+Theorem C12_stop_before_last_body_refuted : exists st a o tries,
+  fst (replay unlock a (consume o tries) st) = [Err MutateWhileIter] /\
+  fst (replay unlock a (consume_early o tries) st) = [Ok] /\
+  content (snd (replay unlock a (consume_early o tries) st)) a <> content st a.
+Proof. exact early_stop_variant_refuted. Qed.
+
 (* ---- the hypotheses are satisfiable on non-trivial states ---- *)
 Definition ex_store : store :=
   of_list [mkCell (VList [1; 2; 3]%Z) 0; mkCell (VDict [(1, 10); (2, 20)]%Z) 0; mkCell (VSet [1; 2; 3]%Z) 0].
@@ -118,3 +164,22 @@ Example C12_ex_builtin_error :
   fst (exec 100 false (blk [SBuiltin BSorted None 2 (blk [SIf 1 (blk [SFail]) BNil])]) ex_store) = Error Failed
   /\ iter_count (snd (exec 100 false (blk [SBuiltin BSorted None 2 (blk [SIf 1 (blk [SFail]) BNil])]) ex_store)) 2 = 0.
 Proof. vm_compute. split; reflexivity. Qed.
+
+(* an inner for (left by break) and a sorted() over the same list come and go inside the outer for: the attempt that follows,
+   still inside the outer body, is refused, content intact; three levels deep as well *)
+Definition ex_overlap : block :=
+  blk [SFor 0 (blk [SIf 1 (blk [SFor 0 (blk [SIf 1 (blk [SBreak]) BNil]); SBuiltin BSorted None 0 BNil;
+                                 SFor 0 (blk [SFor 0 BNil]); SMutate (LAppend 7) 0]) BNil])].
+
+Example C12_ex_overlap : fst (exec 100 false ex_overlap ex_store) = Error MutateWhileIter
+  /\ content (snd (exec 100 false ex_overlap ex_store)) 0 = Some (VList [1; 2; 3]%Z)
+  /\ fst (exec 100 true ex_overlap ex_store) = Error MutateWhileIter
+  /\ iter_count (snd (exec 100 true ex_overlap ex_store)) 0 = 0.
+Proof. vm_compute. repeat split. Qed.
+
+(* the callback of map() attempts the mutation at the LAST element of a set: refused, released afterwards *)
+Example C12_ex_callback_last :
+  fst (exec 100 false (blk [SBuiltin BMap None 2 (blk [SIf 2 (blk [SMutate (SAdd 7) 2]) BNil])]) ex_store) = Error MutateWhileIter
+  /\ iter_count (snd (exec 100 false (blk [SBuiltin BMap None 2 (blk [SIf 2 (blk [SMutate (SAdd 7) 2]) BNil])]) ex_store)) 2 = 0
+  /\ fst (replay unlock 2 (consume (SAdd 7) [false; false; true]) ex_store) = [Err MutateWhileIter].
+Proof. vm_compute. repeat split. Qed.
